@@ -136,6 +136,42 @@ Theorem C18_inscription_view_partial : forall t s e v, entry_of t s = Some e ->
     next = match entry_of t (s + 1) with Some n => Some (e_seq n) | None => None end.
 Proof. exact inscription_view. Qed.
 
+(* /outputs/<address>?type=: every output of the address is in at least one class; `inscribed` / `runic` are
+   exactly the outputs holding inscriptions / rune balances (an output holding both is in both, see the
+   example), `cardinal` those holding neither, no type / `any` all of them; every listed output is reported
+   with exactly the inscriptions of its UTXO entry and the rune balances the index stores for it *)
+Theorem C18_output_classes_partial : forall (t : tables) (h : holdings) (a : N),
+  (forall o, orb (in_class t h TCardinal o) (orb (in_class t h TInscribed o) (in_class t h TRunic o)) = true) /\
+  (forall ty o, In o (class_list t h a ty) <-> In o (address_ops h a) /\ in_class t h ty o = true) /\
+  class_list t h a TAny = address_ops h a /\
+  (forall o, in_class t h TInscribed o = true <-> exists x, op_of t o = Some x /\ inscriptions_on_output x <> []) /\
+  (forall o, in_class t h TRunic o = true <-> rune_balances h o <> []) /\
+  (forall o, in_class t h TCardinal o = true <-> in_class t h TInscribed o = false /\ in_class t h TRunic o = false) /\
+  (forall ty vs, h_index h = true -> outputs_address t h a (Some ty) = ROutputs vs ->
+     map fst vs = class_list t h a ty /\
+     forall o ins v rs, In (o, (ins, (v, rs))) vs ->
+       output_json t o = ROutput ins v /\ rs = Some (rune_balances h o)).
+Proof.
+  intros t h a.
+  split; [intro o; apply classes_cover|].
+  split; [intros ty o; apply class_list_spec|].
+  split; [apply class_list_any|].
+  split; [intro o; apply holds_inscriptions_spec|].
+  split; [intro o; apply holds_runes_spec|].
+  split.
+  - intro o. split; [apply cardinal_exclusive|].
+    intros [H1 H2]. cbn [in_class] in *. rewrite H1, H2. reflexivity.
+  - intros ty vs Hi H. eapply outputs_address_spec; eauto.
+Qed.
+
+(* an output holding an inscription and runes is listed under both `inscribed` and `runic`, not under `cardinal` *)
+Example C18_output_in_two_classes :
+  let t := mkT false [] [] [] [] [mkO 0 (Some 10) (Some (10, [(7, 0)]))] [] in
+  let h := mkH true [[0]] [(0, [(0, 600)])] in
+  class_list t h 0 TInscribed = [0] /\ class_list t h 0 TRunic = [0] /\ class_list t h 0 TCardinal = [] /\
+  outputs_address t h 0 (Some TInscribed) = ROutputs [(0, (Some [7], (10, Some [(0, 600)])))].
+Proof. vm_compute. repeat split. Qed.
+
 (* Non-vacuity: 250 children, pages of 100: [0..99] more, [100..199] more, [200..249] no more, then empty;
    -1 is the newest *)
 Example C18_nonvacuous :
